@@ -521,19 +521,35 @@ func (c *c06Check) runHist(seed, run uint64, t *tape.Tape, s *C06Stats, lines *[
 	var lastRecv entry
 	var lastKind, lastName string
 	var lastShapes []int
+	// sub-variant draws of a step (which literal form, which chain context ...) are
+	// recorded so that a repeated step re-applies the very same operation form
+	var subs, lastSubs, subReplay []int
+	lastChoice := -1
+	sub := func(weights ...int) int {
+		v := t.Pick(weights...)
+		if len(subReplay) > 0 {
+			v = subReplay[0]
+			subReplay = subReplay[1:]
+		}
+		subs = append(subs, v)
+		return v
+	}
 	for step := 0; step < nsteps; step++ {
 		recv := pick()
 		var src, opKind, opName string
 		choice := t.Pick(8, 4, 1, 3, 3, 4, 2)
 		// aliasing needs a history: often apply the previous operation again to the same
 		// receiver with other arguments (siblings derived from one value must not interfere)
-		repeat := lastKind != "" && t.Chance(1, 3)
+		repeat := lastChoice >= 0 && t.Chance(1, 3)
 		argShapes = argShapes[:0]
 		replay = nil
+		subs = nil
+		subReplay = nil
 		if repeat {
-			replay = append([]int(nil), lastShapes...)
 			recv = lastRecv
-			choice = map[string]int{"prop": 0, "infix": 1}[lastKind]
+			replay = append([]int(nil), lastShapes...)
+			subReplay = append([]int(nil), lastSubs...)
+			choice = lastChoice
 		}
 		switch choice {
 		case 0: // property call
@@ -542,7 +558,7 @@ func (c *c06Check) runHist(seed, run uint64, t *tape.Tape, s *C06Stats, lines *[
 				continue
 			}
 			opName = names[t.Intn(len(names))]
-			if repeat {
+			if repeat && lastKind == "prop" {
 				opName = lastName
 			}
 			opKind = "prop"
@@ -566,7 +582,7 @@ func (c *c06Check) runHist(seed, run uint64, t *tape.Tape, s *C06Stats, lines *[
 			}
 		case 1: // infix
 			opName = c06Infix[t.Intn(len(c06Infix))]
-			if repeat {
+			if repeat && lastKind == "infix" {
 				opName = lastName
 			}
 			opKind = "infix"
@@ -577,7 +593,7 @@ func (c *c06Check) runHist(seed, run uint64, t *tape.Tape, s *C06Stats, lines *[
 			src = fmt.Sprintf("(%s%s)", opName, recv.name)
 		case 3: // index / slice
 			opKind, opName = "index", "at"
-			switch t.Pick(3, 2, 1, 1) {
+			switch sub(3, 2, 1, 1) {
 			case 0:
 				src = fmt.Sprintf("%s[%s]", recv.name, arg())
 			case 1:
@@ -589,10 +605,19 @@ func (c *c06Check) runHist(seed, run uint64, t *tape.Tape, s *C06Stats, lines *[
 			}
 		case 4: // literal embedding pool values
 			opKind = "literal"
-			switch t.Pick(3, 3, 2, 1, 1) {
+			switch sub(3, 3, 2, 1, 1) {
 			case 0:
 				opName = "arr"
-				src = fmt.Sprintf("[%s, *%s, %s]", arg(), recv.name, arg())
+				switch sub(2, 3, 1, 1) {
+				case 0:
+					src = fmt.Sprintf("[%s, *%s, %s]", arg(), recv.name, arg())
+				case 1:
+					src = fmt.Sprintf("[*%s, %s]", recv.name, arg())
+				case 2:
+					src = fmt.Sprintf("[*%s, *%s]", recv.name, pick().name)
+				default:
+					src = fmt.Sprintf("[*%s]", recv.name)
+				}
 			case 1:
 				opName = "obj"
 				if t.Chance(1, 2) {
@@ -615,7 +640,7 @@ func (c *c06Check) runHist(seed, run uint64, t *tape.Tape, s *C06Stats, lines *[
 				src = fmt.Sprintf("\"<#{%s}|#{%s}>\"", recv.name, arg())
 			default:
 				opName = "call-unpack"
-				switch t.Intn(3) {
+				switch sub(1, 1, 1) {
 				case 0:
 					src = fmt.Sprintf("{|a, b, k: 1| [a, b, k, \\0, \\_]}(*%s, **%s)", recv.name, pick().name)
 				case 1:
@@ -626,7 +651,7 @@ func (c *c06Check) runHist(seed, run uint64, t *tape.Tape, s *C06Stats, lines *[
 			}
 		case 5: // chains with the simulated callee
 			opKind = "chain"
-			ctx := []string{"@", "&@", "=@", "~@", "$", "~$", ".", "~.", "&."}[t.Intn(9)]
+			ctx := []string{"@", "&@", "=@", "~@", "$", "~$", ".", "~.", "&."}[sub(1, 1, 1, 1, 1, 1, 1, 1, 1)]
 			opName = ctx
 			chainArg := ""
 			if strings.HasSuffix(ctx, "$") || t.Chance(1, 5) {
@@ -645,7 +670,7 @@ func (c *c06Check) runHist(seed, run uint64, t *tape.Tape, s *C06Stats, lines *[
 			}
 		default: // object system
 			opKind = "objsys"
-			switch t.Pick(2, 1, 2, 1, 1) {
+			switch sub(2, 1, 2, 1, 1) {
 			case 0:
 				opName = "bear"
 				src = fmt.Sprintf("%s.bear({z: %s})", recv.name, arg())
@@ -663,11 +688,10 @@ func (c *c06Check) runHist(seed, run uint64, t *tape.Tape, s *C06Stats, lines *[
 				src = fmt.Sprintf("%s.try.{|x| %s}.A", recv.name, arg())
 			}
 		}
-		lastKind, lastName, lastRecv = "", "", recv
-		if opKind == "prop" || opKind == "infix" {
-			lastKind, lastName = opKind, opName
-			lastShapes = append([]int(nil), argShapes...)
-		}
+		lastKind, lastName, lastRecv = opKind, opName, recv
+		lastChoice = choice
+		lastShapes = append([]int(nil), argShapes...)
+		lastSubs = append([]int(nil), subs...)
 		// fault plan: the callee raises at its k-th invocation (abort atomicity)
 		var plan map[int]harness.Ret
 		faulted := false
